@@ -49,6 +49,8 @@ def plan(tier, seed):
         for part in range(4):
             sp.append({'kind': 'gates', 'year': y, 'part': part, 'of': 4, 'n': n})
         sp.append({'kind': 'limits', 'year': y})
+        for part in range(2):
+            sp.append({'kind': 'witness', 'year': y, 'part': part, 'of': 2, 'n': 3})
         if tier != 'quick':
             sp.append({'kind': 'multi', 'year': y, 'n': 1000})
     return sp
@@ -107,11 +109,20 @@ def run_shard(spec, tier, seed):
     year = spec['year']
     gates = gates_for(year, hx)
     rng = rng_for('C09', seed, spec)
-    if spec['kind'] == 'gates':
+    witness = spec['kind'] == 'witness'
+    if witness:
+        # the same fixed returns whatever VERIF_SEED is: which gates they consult is a fact about
+        # the tree under test, compared in finalize() with the committed list spec/gate_witness.json
+        seed = 'W'
+        rng = rng_for('C09', 'W', spec)
+    if spec['kind'] in ('gates', 'witness'):
         # pool of solved bases with their traces
         pool = []
-        for fam in scen.FAMILIES:
-            for p in scen.personas(seed, year, fam, spec['n']):
+        sources = [(fam, p) for fam in scen.FAMILIES for p in scen.personas(seed, year, fam, spec['n'])]
+        if witness:
+            sources += list(scen.directed_personas(year, 0, 2))
+        for fam, p in sources:
+            if True:
                 out, tv, t = realwork.traced(p)
                 res.evaluations += 1
                 oracle(res, year, gates, out, tv, f'{year} {fam} {p.key}', realwork.replay_of(p, 'base', spec), drive)
@@ -143,10 +154,14 @@ def run_shard(spec, tier, seed):
                     if g in hit:
                         nflip += 1
                         res.add('gates_read_affirmative', f'{year}|{g}')
+                        if witness:
+                            res.add('witness_reached', f'{year}|{g}')
                     else:
                         res.count('flips_where_gate_was_not_reached')
             if nflip == 0:
                 res.add('gates_flipped_but_never_reached', f'{year}|{g}')
+        if witness:
+            res.add('witness_parts_done', f'{year}|{spec["part"]}')
         res.sample({'year': year, 'gates_in_this_shard': mine[:8], 'solved_bases': len(pool)})
         return res
     if spec['kind'] == 'limits':
@@ -174,6 +189,16 @@ def run_shard(spec, tier, seed):
         lim = st.amount('hsa_limit_self', year)
         cases.append(('hsa-contribution-over-limit', 'F4', 'S', {'8889:you.hsa_contributions': f'{lim + 1:.2f}', '8889:you.hdhp_plan_family': 'no', '1040_s1.hsa_contribution_you': 'yes',
                                                                  '1040.schedule_1_income_adjustments': 'yes', '8889:you.employer_contribution': '0'}, {}, '8889:you.hsa_contributions'))
+        hsa = {'1040_s1.hsa_contribution_you': 'yes', '1040.schedule_1_income_adjustments': 'yes', '8889:you.age_under_55': 'yes', '8889:you.hsa_full_year': 'yes',
+               '8889:you.archer_msa': '0', '8889:you.qualified_distribution': 'no', '8889:you.part_2_needed': 'no', '8889:you.part_3_needed': 'no'}
+        # own contributions within the limit, but over it together with the employer's
+        cases.append(('hsa-own-plus-employer-over-limit', 'F4', 'S', dict(hsa, **{'8889:you.hsa_contributions': f'{lim - 600:.2f}', '8889:you.hdhp_plan_family': 'no',
+                                                                                   '8889:you.employer_contribution': '1500.00'}), {}, '8889:you.employer_contribution'))
+        limf = st.amount('hsa_limit_family', year)
+        cases.append(('hsa-family-contribution-over-limit', 'F4', 'S', dict(hsa, **{'8889:you.hsa_contributions': f'{limf + 1:.2f}', '8889:you.hdhp_plan_family': 'yes',
+                                                                                     '8889:you.employer_contribution': '0'}), {}, '8889:you.hsa_contributions'))
+        cases.append(('hsa-family-own-plus-employer-over-limit', 'F4', 'S', dict(hsa, **{'8889:you.hsa_contributions': f'{limf - 2000:.2f}', '8889:you.hdhp_plan_family': 'yes',
+                                                                                          '8889:you.employer_contribution': '2000.50'}), {}, '8889:you.employer_contribution'))
         # a pension whose taxable amount is not determined, next to an IRA distribution, in both orders
         for fam_, q0 in scen.directed_personas(year, seed, 2):
             if fam_ != 'F9m':
@@ -247,6 +272,22 @@ def finalize(res, tier):
     out = {'gates_curated': total, 'gates_read_affirmative_in_directed_flips': seen,
            'gates_never_read': sorted(res.sets.get('gates_never_read_in_a_solved_base', ())),
            'gates_flipped_but_never_reached': sorted(res.sets.get('gates_flipped_but_never_reached', ()))}
+    import json
+    wpath = os.path.join(VERIF_DIR, 'spec', 'gate_witness.json')
+    reached = set(res.sets.get('witness_reached', ()))
+    out['witness_gates_reached'] = len(reached)
+    if os.environ.get('HV_WRITE_GATE_WITNESS'):
+        out['witness_list'] = sorted(reached)
+    if len(res.sets.get('witness_parts_done', ())) == 6 and os.path.exists(wpath):
+        expected = set(json.load(open(wpath))['gates'])
+        for wg in sorted(expected - reached):
+            y_, g_ = wg.split('|')
+            res.violation(f'C09|{y_}|gate-no-longer-consulted|{g_}', f'{y_}: the fixed witness returns no longer consult {g_} ({gates_for(int(y_), hx).get(g_, ("", "", "?"))[2]}): '
+                          'declaring that unsupported situation leaves the return solved (the gate was dropped or is unreachable)', {'engine': 'witness', 'gate': wg})
+        out['witness_gates_expected'] = len(expected)
+        out['witness_gates_new'] = sorted(reached - expected)
+    else:
+        res.inconclusive.append('gate-witness shards incomplete or spec/gate_witness.json missing')
     if seen < 0.75 * total:
         res.inconclusive.append(f'only {seen} of {total} curated gates were observed read-affirmative')
     if res.counters.get('limit_cases', 0) < 9:
